@@ -688,13 +688,15 @@ class StoryInsert(MosFile):
                 f"{self.__class__.__name__} error in {self.message_id} - target story not found"
             )
         ro_story_ids = {story.id for story in ro.stories}
-        for i, new_story in enumerate(self.source_stories, start=story_index):
+        for new_story in self.source_stories:
             if new_story.id in ro_story_ids:
                 msg = f"{self.__class__.__name__} error in {self.message_id} - story already found in running order"
                 logger.warning(msg)
                 warnings.warn(msg, DuplicateStoryWarning)
                 continue
-            insert_node(parent=ro.base_tag, node=copy.deepcopy(new_story.xml), index=i)
+            insert_node(parent=ro.base_tag, node=copy.deepcopy(new_story.xml), index=story_index)
+            # only an inserted story advances the position
+            story_index += 1
         return ro
 
     def inspect(self):
@@ -1610,13 +1612,15 @@ class EAStoryInsert(ElementAction):
                     f"{self.__class__.__name__} error in {self.message_id} - target story not found"
                 )
         ro_story_ids = {story.id for story in ro.stories}
-        for i, new_story in enumerate(self.stories, start=story_index):
+        for new_story in self.stories:
             if new_story.id in ro_story_ids:
                 msg = f"{self.__class__.__name__} error in {self.message_id} - story already found in running order"
                 logger.warning(msg)
                 warnings.warn(msg, DuplicateStoryWarning)
             else:
-                insert_node(parent=ro.base_tag, node=copy.deepcopy(new_story.xml), index=i)
+                insert_node(parent=ro.base_tag, node=copy.deepcopy(new_story.xml), index=story_index)
+                # only an inserted story advances the position
+                story_index += 1
         return ro
 
     def inspect(self):
